@@ -15,6 +15,9 @@ Clauses (one mechanism-key family each):
   bounds       every value of result.circuit lies within [lower, upper] of the same parameter of the circuit that was
                passed in (exact comparison).
   fixed        parameters marked fixed in the circuit passed in are bit-identical in result.circuit.
+  fixed flags  the fixed flags of result.circuit, of result.parameters and the Fixed column of the dataframe equal the flags
+               of the circuit passed in (a released default-fixed parameter stays released); parameters that carry a
+               constraint expression are exempt in the table (the library reports them as not varied).
   constraints  every user expression  name = expr  holds on the returned values (rel. CONSTR_TOL); auxiliary
                constraint variables are read from result.minimizer_result.params.
   table        result.parameters has exactly one entry per element (named as result.circuit.get_element_name names it)
@@ -26,7 +29,7 @@ Latitude (statement is silent -> both behaviours accepted):
   - a fit may be *refused* with pyimpspec's FittingError (non-convergence, warnings-as-errors inside the optimiser):
     counted per cell, never a violation for invariant items; a whole (method, weight) cell that never returns is
     INCONCLUSIVE.  For recovery items (default auto/auto on identifiable noise-free data) a raise is a violation.
-  - stderr / 'fixed' flags / units of the table are not judged; only names and values.
+  - stderr / units of the table are not judged; only names, values and fixed flags.
   - the limits carried by result.circuit are not judged (only the values, against the caller's limits).
 Preconditions built into the generator: start values inside their limit boxes; a parameter that carries a constraint
 expression is not fixed and keeps limits that contain the whole range of its expression (lmfit clips an expression
@@ -50,7 +53,8 @@ RULE = (
     "identifiable families R(RC), R(RQ), R(RC)(RC), R(RC)(RQ), R(C[RW]), RL(RQ) with resistances over 4 (thorough: 8) decades, "
     "comparable resistances (within x2 of a common scale), CPE exponents 0.75-0.92, time constants >=1 decade (RC next to RQ: 2) "
     "apart and >=0.8 decade inside a 6-8 decade window of 6-10 points/decade, start = truth perturbed by up to x3 (exponents "
-    "+-0.05), fit_circuit(method='auto', weight='auto'); items whose values lmfit cannot represent to 1e-3 inside the class-"
+    "+-0.05), fit_circuit(method='auto', weight='auto'), plus R(C[RW]) / R(C[RWo]) with the default-fixed Warburg exponent released and "
+    "generated at 0.35-0.45 or 0.55-0.65; items whose values lmfit cannot represent to 1e-3 inside the class-"
     "default limit box are excluded from the standard range and judged under a separate key in the wide range. "
     "Invariant items: 14 circuit shapes (3..14 elements, incl. labels, W/Wo/Ws/"
     "Zarc/La/Tlm), per-parameter limit boxes {class default, tight around start, excluding the optimum, one-sided, above/"
@@ -359,6 +363,7 @@ def _gen_inv_item(rng, cell_index):
             fixed = bool(default_fixed or rng.random() < 0.3)
             if default_fixed and rng.random() < 0.3:  # free the exponent of a Warburg element inside a tight box
                 fixed, lo, hi, kind = False, 0.3, 0.7, "tight"
+                s = float(t + rng.choice([-1, 1]) * rng.uniform(0.02, 0.15))  # released and started off the generating 0.5
             p[:] = [s, lo, hi, fixed]
             kinds.append(kind)
             n_free += not fixed
@@ -539,7 +544,7 @@ def check_fit(item):
         bad("C12/structure-changed", f"returned circuit {rc.to_string()} has other elements than the input {circuit.to_string()}")
         return {"evals": 1, "keys": [], "viol": viol, "stats": stats, "maxobs": maxobs}
     lmfit_values = {}  # running identifier -> returned value
-    n_fixed = n_active = n_params = 0
+    n_fixed = n_active = n_params = n_flags = n_released = 0
     for el, (sym, vals, lo, hi, fx, ids) in zip(out_elements, in_state):
         got = el.get_values()
         for name, v0 in vals.items():
@@ -561,23 +566,41 @@ def check_fit(item):
                 cls_ = type(el)
                 if float(v0) in (cls_.get_default_lower_limit(name), cls_.get_default_upper_limit(name)):
                     bump(("fixed" if fx[name] else "free") + "_on_class_default_limit")
+            # the fixed flag itself must survive: a released parameter stays released, a fixed one fixed
+            n_flags += 1
+            out_fixed = bool(el.is_fixed(name))
+            if type(el).is_fixed_by_default(name) and not fx[name]:
+                n_released += 1
+            if out_fixed != bool(fx[name]):
+                bad("C12/fixed-flag-changed:returned-circuit", f"{sym}.{name} was passed in with fixed={bool(fx[name])} (class default {type(el).is_fixed_by_default(name)}) but the returned circuit has fixed={out_fixed}")
             if fx[name]:
                 n_fixed += 1
                 if not (float(v).hex() == float(v0).hex()):
                     bad("C12/fixed-changed", f"fixed {sym}.{name} was {float(v0)!r}, returned circuit has {float(v)!r}")
     bump("params_bounds_checked", n_params)
     bump("params_fixed_checked", n_fixed)
+    bump("fixed_flags_checked", n_flags)
+    bump("released_default_fixed", n_released)
     bump("params_at_bound", n_active)
     # ---- table == circuit
     names = []
     mism = 0
     try:
         table = result.parameters
-        for el in out_elements:
+        cexpr_names = set((item.get("cexpr") or {}).keys())
+        df_fixed_expected = {}
+        for el, (sym_, vals_, lo_, hi_, fx_, ids_) in zip(out_elements, in_state):
             nm = rc.get_element_name(el)
             names.append(nm)
             row = table.get(nm)
             got = el.get_values()
+            if row is not None:
+                for name, flag in fx_.items():
+                    if ids_[name] in cexpr_names or name not in row:
+                        continue  # latitude: a parameter that carries a constraint expression is reported as not varied
+                    df_fixed_expected[(nm, name)] = "Yes" if flag else "No"
+                    if bool(row[name].fixed) != bool(flag):
+                        bad("C12/fixed-flag-changed:table", f"table says {nm}.{name} fixed={row[name].fixed}, the circuit passed in has fixed={bool(flag)}")
             if row is None or set(row.keys()) != set(got.keys()):
                 bad("C12/table-names", f"parameter table entry {nm!r} is {None if row is None else sorted(row)} but the element has {sorted(got)}; table keys {sorted(table)}")
                 continue
@@ -596,6 +619,11 @@ def check_fit(item):
             d = [k for k in set(rows) | set(exp) if rows.get(k) != exp.get(k)][:3]
             bad("C12/dataframe-mismatch", f"to_parameters_dataframe() differs from the returned circuit at {d}: {[rows.get(k) for k in d]} vs {[exp.get(k) for k in d]}")
         bump("dataframe_rows_checked", len(exp))
+        df_fixed = {(str(a), str(b)): str(c) for a, b, c in zip(df["Element"], df["Parameter"], df["Fixed"])}
+        wrong = [k for k, v in df_fixed_expected.items() if df_fixed.get(k) != v][:3]
+        if wrong:
+            bad("C12/fixed-flag-changed:table", f"Fixed column of to_parameters_dataframe() is {[df_fixed.get(k) for k in wrong]} for {wrong}, the circuit passed in says {[df_fixed_expected[k] for k in wrong]}")
+        bump("table_fixed_flags_checked", len(df_fixed_expected))
     except Exception as e:
         o = monitors.exception_origin(e)
         if o["in_tree"]:
@@ -660,6 +688,7 @@ def check_fit(item):
 # ------------------------------------------------------------------------------------------------
 N_REC = {"quick": 5, "thorough": 64}      # recovery fits per family
 N_INV = {"quick": 20, "thorough": 160}    # invariant fits per (method, weight) cell
+N_REL = {"quick": 3, "thorough": 32}      # recovery fits per family with a released default-fixed exponent
 BATCH = 12
 
 
@@ -669,6 +698,9 @@ def gen_cases(tier, seed):
         for i in range(N_REC[tier]):
             cases.append({"kind": "recover", "family": fam, "seed": [int(seed), 1, j, i], "wide": bool(tier == "thorough" and i % 2 == 1),
                           "num_procs": 3 if i % 8 == 3 else 1})
+    for j, fam in enumerate(fm.RELEASED_FAMILIES):
+        for i in range(N_REL[tier]):
+            cases.append({"kind": "recover", "family": fam, "seed": [int(seed), 3, j, i], "wide": False, "num_procs": 3 if i % 8 == 1 else 1})
     total = 36 * N_INV[tier]
     nb = total // BATCH
     inv = [{"kind": "inv", "seed": [int(seed), 2, b], "first": b * BATCH, "count": BATCH} for b in range(nb)]
@@ -739,7 +771,7 @@ def finalize(agg):
     if dead:
         inc.append(f"(method, weight) cells that never returned a result: {dead}")
     for name in ("params_fixed_checked", "params_at_bound", "constraints_checked", "table_values_checked", "untouched_checked",
-                 "fixed_on_limit", "fixed_on_limit:lower", "fixed_on_limit:upper", "fixed_on_class_default_limit", "free_on_limit"):
+                 "fixed_flags_checked", "table_fixed_flags_checked", "released_default_fixed", "fixed_on_limit", "fixed_on_limit:lower", "fixed_on_limit:upper", "fixed_on_class_default_limit", "free_on_limit"):
         if st.get(name, 0) == 0:
             inc.append(f"{name} == 0: the clause was never exercised")
     rec_all = [r for a in agg["aggs"] for r in (a or [])]
